@@ -164,7 +164,7 @@ def race_check(ctx, vecs):
     env = goenv()
     env["CGO_ENABLED"] = "1"
     binp = ctx.vharness + "-race"
-    p = subprocess.run(["go", "build", "-race", "-tags", "verif", "-o", binp, "."], cwd=HARNESS, env=env,
+    p = subprocess.run(["go", "build", "-race", "-tags", "verif", "-o", binp, "."], cwd=getattr(ctx, "harness_src", HARNESS), env=env,
                        stdout=subprocess.PIPE, stderr=subprocess.STDOUT, text=True)
     if p.returncode != 0:
         raise Machinery("race build of the harness failed:\n" + p.stdout[-2000:])
